@@ -1,10 +1,12 @@
 #!/bin/sh
-# usage: tools/run_seeded_par.sh [N] : every seeded change against the check of its own property, on N scratch
+# usage: tools/run_seeded_par.sh [N [id ...]] : every seeded change against the check of its own property, on N scratch
 # worktrees of /repo HEAD (under /tmp, removed afterwards) so that /repo itself stays untouched. One line per change.
 N=${1:-4}
+[ $# -gt 0 ] && shift
 cd "$(dirname "$0")/.." || exit 2
 VERIF=$(pwd)
-ls seeded | sort > /tmp/rsp.all
+export VERIF_NO_EVIDENCE=1      # runs against changed trees must not overwrite the evidence files
+if [ $# -gt 0 ]; then for x in "$@"; do echo $x; done > /tmp/rsp.all; else ls seeded | sort > /tmp/rsp.all; fi
 i=0
 while [ $i -lt $N ]; do
   wt=/tmp/rsp_wt$i
